@@ -335,6 +335,8 @@ def r135(repo, ctx):
         ok = False
         why = 'no interpolation lambda'
         for l in lam:
+            if not l.args.args:
+                continue
             tparam = l.args.args[-1].arg
             for c in U.calls(l.body):
                 if U.call_name(c) == 'np.interp' and len(c.args) >= 3:
